@@ -272,6 +272,7 @@ class Interp(object):
         self.max_depth = max_depth
         self.globals = {}
         self._modvars = {}
+        self.intercept = {}     # qualified name of a repository function / class -> handler(interp, args, kwargs) called instead of it
         self._dyn_members = {}
         self._module_scope = {}
         self.trace = False
@@ -520,6 +521,8 @@ class Interp(object):
             return Closure(fi.node, {}, self, self_obj=v[1], cls=[k for k in self.model.mro(v[2]) if self.model.funcs.get(k + '.' + attr) is fi][0])
         if isinstance(v, tuple) and attr in ('major', 'minor') and len(v) >= 2:
             return v[0] if attr == 'major' else v[1]
+        if isinstance(v, type) and v in (dict, str, bytes, int, float, list, tuple, set, frozenset) and hasattr(v, attr):
+            return ('pymethod', v, attr)      # dict.fromkeys, str.join, int.from_bytes ... called on determined arguments
         if isinstance(v, (str, bytes, list, dict, tuple, set, int, float, complex, re.Match, re.Pattern)):
             try:
                 m = getattr(v, attr)
@@ -912,7 +915,15 @@ class Interp(object):
                     args.extend(list(v))
             else:
                 args.append(self.ev(a, env))
-        kwargs = {kw.arg: self.ev(kw.value, env) for kw in e.keywords if kw.arg}
+        kwargs = {}
+        for kw in e.keywords:
+            if kw.arg:
+                kwargs[kw.arg] = self.ev(kw.value, env)
+            else:
+                m_ = self.ev(kw.value, env)      # f(**mapping)
+                if not isinstance(m_, dict) or any(not isinstance(k_, str) for k_ in m_):
+                    raise _Abort('call with ** of an undetermined mapping: ' + src(kw.value))
+                kwargs.update(m_)
         # rule-supplied hooks first (by callee text, then by attribute name '.name')
         h = self.hooks.get(ftext)
         if h is None and isinstance(e.func, ast.Attribute):
@@ -953,10 +964,12 @@ class Interp(object):
                 if isinstance(call, Closure):
                     return self.call_closure(call, args, kwargs)
             if fv in (int, float, complex, str, bytes, bool, tuple, list, dict, set):
-                if any(a is TOP or isinstance(a, Obj) for a in args):
+                if any(a is TOP or isinstance(a, Obj) for a in args) and fv is not dict:
+                    return TOP
+                if fv is dict and any(a is TOP for a in args):
                     return TOP
                 try:
-                    return fv(*args)
+                    return fv(*[self.materialise(a) for a in args], **kwargs)
                 except Exception as ex:
                     raise _Raise(type(ex).__name__)
             if fv is type and len(args) == 1:
@@ -1007,6 +1020,8 @@ class Interp(object):
 
     def construct(self, cref, args, kwargs):
         """Instantiate an abstract object; AST classes take their fields positionally."""
+        if cref.qual is not None and cref.qual in self.intercept:
+            return self.intercept[cref.qual](self, list(args), dict(kwargs))
         if cref.qual is not None and self.model is not None and cref.qual in self.model.classes:
             o = Obj(cref.name)
             o.qual = cref.qual
@@ -1047,6 +1062,10 @@ class Interp(object):
 
     def call_closure(self, clo, args, kwargs):
         node = clo.node
+        if self.intercept and self.model is not None and not isinstance(node, ast.Lambda):
+            fi_ = self.model.func_of_node(node)
+            if fi_ is not None and fi_.qual in self.intercept and clo.self_obj is None:
+                return self.intercept[fi_.qual](self, list(args), dict(kwargs))
         if self.depth > self.max_depth:
             raise _Abort('call depth')
         a = node.args
@@ -1268,6 +1287,14 @@ class Interp(object):
             self.__dict__.get('_class_attrs', {}).pop((o.qual, name), None)
             return None
         return TOP
+
+    def builtin_format(self, args, kwargs, e, env):
+        if kwargs or any(a is TOP or isinstance(a, Obj) for a in args):
+            return TOP
+        try:
+            return format(*args)
+        except Exception as ex:
+            raise _Raise(type(ex).__name__)
 
     def builtin_hash(self, args, kwargs, e, env):
         v = args[0]
